@@ -62,6 +62,9 @@ async def run(
     # Start simulator processes
     processes: List[asyncio.Task[None]] = []
     for sim in world.sims.values():
+        # advance_progress may be called for this simulator (after
+        # another simulator's step) before its own process has started.
+        sim.rt_start = perf_counter()
         process = world.loop.create_task(
             sim_process(world, sim, until, rt_factor, rt_strict, lazy_stepping),
             name=f"Runner for {sim.sid}"
